@@ -8,11 +8,12 @@ open Qv.C01 Qv.Drv
 structure CI where
   re : Int
   im : Int
-deriving BEq, Inhabited
+deriving BEq, Inhabited, DecidableEq
 
 instance : Add CI := ⟨fun a b => ⟨a.re + b.re, a.im + b.im⟩⟩
 instance : Mul CI := ⟨fun a b => ⟨a.re * b.re - a.im * b.im, a.re * b.im + a.im * b.re⟩⟩
 instance : OfNat CI 0 := ⟨⟨0, 0⟩⟩
+instance : OfNat CI 1 := ⟨⟨1, 0⟩⟩
 
 def ciOf (j : Json) : Except String CI := do
   match j with
@@ -137,5 +138,17 @@ def matmulCsrDenseJ (j : Json) : Except String Json := do
   let out := matmulCsrDense a b o s
   pure <| Json.mkObj [("data", Json.arr ((List.range (out.rows * out.cols)).map fun p => ciJ (out.data p)).toArray),
     ("abs", absJ out.rows out.cols out.abs)]
+
+def matmulDiaDenseJ (j : Json) : Except String Json := do
+  let a ← diaOf j "a"
+  let b ← denseBufOf j "b"
+  let s ← ciOf (← j.getObjVal? "scale")
+  let o : Option (Dense CI) ← (match j.getObjVal? "out" with
+    | .ok (.null) => pure none
+    | .ok _ => do pure (some (← denseBufOf j "out"))
+    | .error _ => pure none)
+  let out := matmulDiaDense a b s o
+  pure <| Json.mkObj [("data", Json.arr ((List.range (out.rows * out.cols)).map fun p => ciJ (out.data p)).toArray),
+    ("abs", absJ out.rows out.cols out.abs), ("fortran", out.fortran)]
 
 end Qv.Drv.C01
